@@ -103,3 +103,15 @@ Theorem C01_exec_tx_supply_self_feedeleg_refuted :
     supply s' + bp_reward s' = supply s + bp_reward s + 2000000000000000.
 Proof. exact exec_tx_supply_self_feedeleg_refuted. Qed.
 Print Assumptions C01_exec_tx_supply_self_feedeleg_refuted.
+
+From Verif Require Import Ledger.Examples Ledger.Eval.
+(** the hypotheses of the chain theorems are satisfiable by a non-trivial two-block chain (transfers,
+    stake, name purchase, a run-time failing call, coinbase, fee regime) *)
+Theorem C01_chain_hypotheses_satisfiable :
+  exists s', exec_chain is_name_std w_cid w_hash e_vm sig_ok_std e_cfg (fun x => x) e_state e_chain = Some s' /\
+             chain_plain is_name_std w_cid w_hash e_vm sig_ok_std e_cfg (fun x => x) e_state e_chain /\
+             supply s' = supply e_state /\
+             nonce (acct_of s' 10%N) = 3%N /\ nonce (acct_of s' 11%N) = 2%N /\
+             length (receipts s') = 2%nat.
+Proof. exact chain_hypotheses_satisfiable. Qed.
+Print Assumptions C01_chain_hypotheses_satisfiable.
